@@ -239,8 +239,9 @@ Proof. exact kernel_psd_threshold. Qed.
 Print Assumptions C13_kernel_psd_threshold.
 
 (** wiring read off the source: every from_gmat hands its matrix, [gmat.taxa] (or a copy) and [gmat.taxa_grp] (or a copy) to the
-    constructor under the right keywords; every factory calls its own class with each parameter under the keyword of the same
-    name; max/min/mean/max_inbreeding use the numpy reduction of the same name (max_inbreeding: on the diagonal). *)
+    constructor under the right keywords and sets each group-metadata attribute from the source's attribute of the same name (or a
+    copy); every factory calls its own class with each parameter under the keyword of the same name; max/min/mean/max_inbreeding
+    use the numpy reduction of the same name (max_inbreeding: on the diagonal). *)
 Theorem C13_kernel_wiring :
   (map fst k_labels = ["mol"; "vr"; "yang"; "gw"]%string /\ forallb (fun e => label_row_ok (snd e)) k_labels = true) /\
   (map fst k_factories = ["mol"; "vr"; "yang"; "gw"]%string /\ forallb factory_row_ok k_factories = true) /\
@@ -248,17 +249,26 @@ Theorem C13_kernel_wiring :
 Proof. exact kernel_wiring. Qed.
 Print Assumptions C13_kernel_wiring.
 
-(** "No from_gmat shares the label arrays of its source" is false of the current source: the VanRaden and Yang classes pass
-    [gmat.taxa] / [gmat.taxa_grp] themselves (witness: the generated table; confirmed on the implementation by the lifecycle
-    driver, known finding C13-vr-yang-share-label-arrays); it holds for the molecular and the weighted class. *)
-Theorem C13_labels_copied_refuted : map fst (filter (fun e => negb (row_copies (snd e))) k_labels) = ["vr"; "yang"]%string.
-Proof. exact labels_copied_refuted. Qed.
-Print Assumptions C13_labels_copied_refuted.
+(** No from_gmat shares a label array with its source: all four classes hand `gmat.X.copy() if gmat.X is not None else None` for
+    taxa, taxa_grp and the four group-metadata arrays (read off the generated table; confirmed on the implementation by the
+    lifecycle driver on every case).  Full strength since the repair of finding C13-vr-yang-share-label-arrays. *)
+Theorem C13_labels_copied :
+  map fst k_labels = ["mol"; "vr"; "yang"; "gw"]%string /\ forallb (fun e => row_copies (snd e)) k_labels = true.
+Proof. exact labels_copied. Qed.
+Print Assumptions C13_labels_copied.
 
-Theorem C13_labels_copied_partial :
-  forallb (fun e => if (String.eqb (fst e) "mol" || String.eqb (fst e) "gw")%bool then row_copies (snd e) else true) k_labels = true.
-Proof. exact labels_copied_partial. Qed.
-Print Assumptions C13_labels_copied_partial.
+(** regression witness about the FORMER source ([old_k_labels]: the table the translator read before the repair, not used by any
+    other statement): well-wired, but the VanRaden and Yang rows handed [gmat.taxa], [gmat.taxa_grp] and the metadata arrays
+    themselves; and the current table differs from it in exactly those two rows. *)
+Theorem C13_old_labels_copied_refuted :
+  forallb (fun e => label_row_ok (snd e)) old_k_labels = true /\ map fst (filter (fun e => negb (row_copies (snd e))) old_k_labels) = ["vr"; "yang"]%string.
+Proof. exact old_labels_copied_refuted. Qed.
+Print Assumptions C13_old_labels_copied_refuted.
+Theorem C13_old_labels_repair_delta :
+  map (fun p => fst (fst p)) (filter (fun p => negb (list_eqb (fun a b => String.eqb (fst a) (fst b) && String.eqb (snd a) (snd b))%bool (snd (fst p)) (snd (snd p))))
+                                     (combine k_labels old_k_labels)) = ["vr"; "yang"]%string.
+Proof. exact labels_repair_delta. Qed.
+Print Assumptions C13_old_labels_repair_delta.
 
 (** Scale covariance of the weighted estimator: multiplying every marker weight by t (any rational, any sign) multiplies every
     entry by t — exactly, whatever the scale (the generators use t = 2^-40 .. 2^+20) — and a scalar weight s gives s times the
